@@ -69,8 +69,17 @@ def perturbed(desc, pars, keys, rng, names):
 
 
 def one(M, rec, rng, g, desc, pars, st, concat=False):
-    cand = CC.candidate_params(desc, pars)
+    cand = CC.candidate_params(desc, pars, geometry=True)
     keys = rng.sample(cand, rng.randint(1, min(7, len(cand))))
+    # lanes and length of one link together (a corridor template), now and then
+    both = [l_["id"] for l_ in desc["links"] if (l_["id"], "L") in cand and (l_["id"], "lam") in cand]
+    if both and rng.random() < 0.35:
+        # (preferably a link right after an on-ramp merge: its length and lanes enter the merging term as a product)
+        ins_, outs_, org_, _dst = R.topology(desc)
+        after_ramp = [l_["id"] for l_ in desc["links"] if l_["id"] in both and l_["up"] in org_ and ins_[l_["up"]]]
+        lid_ = rng.choice(after_ramp) if (after_ramp and pars.get("delta") is not None) else rng.choice(both)
+        keys = [k_ for k_ in keys if k_ not in ((lid_, "L"), (lid_, "lam"))] + [(lid_, "L"), (lid_, "lam")]
+        rec.count("cases_with_lanes_and_length_of_a_link_both_symbolic")
     if concat:  # at least two element parameters, handed over as one concatenated entry
         el_ = [k_ for k_ in cand if k_[0] != "#"]
         keys = rng.sample(el_, min(len(el_), rng.randint(2, 4))) + [k_ for k_ in keys if k_[0] == "#"][:1]
